@@ -42,18 +42,24 @@ Definition sha1_k (t : N) : N :=
   else if t <? 60 then 2400959708  (* 8f1bbcdc *)
   else 3395469782.                 (* ca62c1d6 *)
 
-(* [w] is the sliding window W[t] .. W[t+15] of the message schedule *)
+(* [w] is the sliding window W[t] .. W[t+15] of the message schedule (shorter near the end:
+   W[t+16] is only computed while it is still needed, t + 16 < 80).  The five summands of
+   T = ROTL5(a) + f + e + K + W[t] are < 2^32 each, so one reduction mod 2^32 is enough. *)
 Fixpoint sha1_rounds (n : nat) (t : N) (s : sha1_st) (w : list N) : sha1_st :=
   match n with
   | O => s
   | S n' =>
-      let wt := nth 0 w 0 in
-      let nw := rotl32 1 (N.lxor (N.lxor (nth 13 w 0) (nth 8 w 0)) (N.lxor (nth 2 w 0) wt)) in
-      let tmp := add32 (add32 (rotl32 5 (sa s)) (sha1_f t (sb s) (sc s) (sd s)))
-                       (add32 (add32 (se s) (sha1_k t)) wt) in
-      sha1_rounds n' (t + 1)
-        {| sa := tmp; sb := sa s; sc := rotl32 30 (sb s); sd := sc s; se := sd s |}
-        (tl w ++ [nw])
+      match w with
+      | [] => s   (* not reachable: the window holds min 16 (80 - t) words *)
+      | wt :: w' =>
+          let tmp := w32 (rotl32 5 (sa s) + sha1_f t (sb s) (sc s) (sd s) + se s + sha1_k t + wt) in
+          let w'' :=
+            if t <? 64
+            then w' ++ [rotl32 1 (N.lxor (N.lxor (nth 12 w' 0) (nth 7 w' 0)) (N.lxor (nth 1 w' 0) wt))]
+            else w' in
+          sha1_rounds n' (t + 1)
+            {| sa := tmp; sb := sa s; sc := rotl32 30 (sb s); sd := sc s; se := sd s |} w''
+      end
   end.
 
 Definition sha1_block (h : sha1_st) (w : list N) : sha1_st :=
